@@ -849,7 +849,7 @@ Qed.
 (* round trip computed on it                                                                         *)
 (* ------------------------------------------------------------------------------------------------ *)
 Definition rt_mk (k : lkind) (req : bool) (d : pyval) : leaf :=
-  {| l_kind := k; l_required := req; l_default := d; l_callable := false; l_sensitive := false |}.
+  {| l_kind := k; l_required := req; l_default := d; l_callable := false; l_sensitive := false; l_reject := None |}.
 (* n = IntField(min=1, max=100, default=3); s = StringField(min_len=2, required, default "abc"); sub.a = IntField(max=20, default=5);
    rows = ListField(Schema(v = IntField(required))) *)
 Definition rt_fs : list (str * node leaf) :=
